@@ -494,7 +494,7 @@ func TestVerif_C40(t *testing.T) {
 		}
 	}
 
-	n := r.N(600, 60000)
+	n := r.N(1500, 60000)
 	for c := 0; c < n; c++ {
 		kind := []int{c40KGCounter, c40KPNCounter, c40KFlag, c40KLWW, c40KMV, c40KORSet, c40KORMap, c40KORSet, c40KORMap, c40KMV, c40KLWW}[c%11]
 		label := c40KindNames[kind]
